@@ -1,6 +1,36 @@
 package executors
 
-import "sync"
+import (
+	"sync"
+	"time"
+
+	"github.com/gotid/god/lib/syncx"
+	"github.com/gotid/god/lib/timex"
+)
+
+// verif16Point is read through the repository's syncx.AtomicBool at the start
+// of the execute callback. Synchronisation operations issued directly by
+// harness functions are not preemption points of the schedule search; this one
+// is issued by repository code, so "the batch has been taken but not a single
+// task has been executed yet" is a point at which another goroutine may run
+// (a real execute callback does I/O there).
+var verif16Point = syncx.NewAtomicBool()
+
+func verifNewExecEnvP(maxTasks int) *verifExecEnv {
+	e := &verifExecEnv{kind: 0, ordered: true, bounded: true, known: true, maxTasks: maxTasks}
+	be := NewBulkExecutor(func(tasks []any) {
+		verif16Point.True()
+		e.execute(tasks)
+	}, WithBulkTasks(maxTasks), WithBulkInterval(verifInterval))
+	e.pe = be.executor
+	e.add = func(id int) { be.Add(id) }
+	e.pe.newTicker = func(d time.Duration) timex.Ticker {
+		e.tk = &verifTicker{c: make(chan time.Time, 1)}
+		e.flushers++
+		return e.tk
+	}
+	return e
+}
 
 // H16f: Wait racing another flusher. One or two tasks have been added (below
 // the size threshold, so they sit in the container). Then, concurrently,
@@ -17,7 +47,7 @@ func Verif_C16_flush_wait() {
 	c := verifCase(4)
 	tasks := c%2 + 1
 	mode := c / 2
-	e := verifNewExecEnvN(3) // threshold 3: one or two tasks are never flushed by size
+	e := verifNewExecEnvP(3) // threshold 3: one or two tasks are never flushed by size
 	verifClock = 1000 * verifInterval
 	for i := 0; i < tasks; i++ {
 		e.mu.Lock()
